@@ -332,7 +332,11 @@ class _FailingCursor:
         self._p["n"] += 1
         self._p["log"].append(what)
         if self._p["n"] - 1 == self._p["at"]:
+            self._p["what"] = what
             raise self._p.get("exc", RuntimeError)("injected failure at " + what)
+        if self._p.get("sticky") and self._p.get("what") == what and self._p["n"] - 1 > self._p["at"]:
+            # the cause of the failure is still there: the same statement fails again however often it is tried
+            raise self._p.get("exc", RuntimeError)("injected failure at " + what + " (again)")
 
     def execute(self, sql, *a):
         self._hit("execute:" + sql.strip().split()[0])
@@ -431,16 +435,18 @@ def run_sqlite(chk: Check, s1, s2, label="short-history", earlier=()):
         reqs = []
         outcomes = []
         # the failure is an ordinary exception, or one that is not an Exception (an interrupt, an exit request): either way the save failed
-        for k, exc in [(k, e) for k in range(nstm) for e in (RuntimeError, _Interrupt)]:
+        # ... or the database's own error class (a full disk, a locked file, a statement the file's table does not accept), once or for as long as the
+        # statement is tried ("sticky": whatever made it fail is still there when the same statement is executed again)
+        for k, exc, sticky in [(k, e, st) for k in range(nstm) for e, st in ((RuntimeError, False), (_Interrupt, False), (sqlite3.OperationalError, False), (sqlite3.OperationalError, True))]:
             d = tempfile.mkdtemp(prefix="vpc06q")
             try:
                 prepare(d, have_prev)
-                plan = {"n": 0, "at": k, "log": [], "exc": exc}
+                plan = {"n": 0, "at": k, "log": [], "exc": exc, "sticky": sticky}
                 sq.sqlite3.connect = lambda *a, **kw: _FailingConn(real_connect(*a, **kw), plan)
                 raised = None
                 try:
                     sq.save_calibrator_state(d, *sqlite_args(s2))
-                except (RuntimeError, _Interrupt) as e:
+                except (RuntimeError, _Interrupt, sqlite3.OperationalError) as e:
                     raised = str(e)
                 finally:
                     sq.sqlite3.connect = real_connect
@@ -448,16 +454,22 @@ def run_sqlite(chk: Check, s1, s2, label="short-history", earlier=()):
             finally:
                 shutil.rmtree(d, ignore_errors=True)
             out = "new" if got == LN else "prev" if got == LP else ("error" if isinstance(got, str) else "hybrid")
-            outcomes.append((k, stmts[k] + ("" if exc is RuntimeError else " (a BaseException that is not an Exception)"), raised, out))
+            outcomes.append((k, stmts[k] + ("" if exc is RuntimeError else " (a BaseException that is not an Exception)" if exc is _Interrupt else
+                                            " (sqlite3.OperationalError" + (", every time the statement is tried)" if sticky else ", once)")), raised, out))
             reqs.append(f"ckpt.sql {'1 5' if have_prev else '0'} {midx[k]}")
-            chk.count("sqlite:exception_class:" + exc.__name__)
+            chk.count("sqlite:exception_class:" + exc.__name__ + (":sticky" if sticky else ""))
         answers = lean_run(reqs)
         for (k, st, raised, out), ans in zip(outcomes, answers):
             chk.case(["sqlite", label, have_prev, k, st], True, {"backend": "sqlite", "history": label, "previous_checkpoint": have_prev, "exception_at_statement": st, "restore": out})
             chk.count(f"sqlite:{'prev' if have_prev else 'empty'}:{out}")
             model = {"5": "prev", "999": "new", "": "prev"}.get(ans, ans)     # committed table: [5]=previous row, [999]=new row, []=nothing (= previous state of an empty db)
             if raised is None:
-                chk.fail(f"the exception injected at {st} did not propagate out of save_calibrator_state", {"case": {"kind": "sqlite", "k": k}})
+                # the save reported success although one of its statements failed (it recovered by itself): then it must have written the complete new checkpoint
+                if out != "new":
+                    chk.fail(f"the exception injected at {st} did not propagate out of save_calibrator_state, and a restore does not give the new checkpoint but: {out}", {"case": {"kind": "sqlite", "k": k}})
+                else:
+                    chk.disagree("SQLite save absorbed a failing statement and completed (no such path in BlackIt.Checkpoint.sqlRun)", {"statement": st, "impl": out, "model": ans})
+                continue
             if have_prev and out != "prev":
                 chk.fail(f"SQLite save failing at {st}: the previous checkpoint is no longer loadable (restore gives {out})", {"case": {"kind": "sqlite", "k": k, "prev": True}})
             if out == "hybrid":
